@@ -189,7 +189,7 @@ def replay(rec):
     idx = rt.Index([(i + 1, tuple(cf(v) for v in bx)) for i, bx in enumerate(c["boxes"])])
     q = c["q"]
     got = sorted(idx.intersection(tuple(cf(v) for v in q)))
-    ctx = vlib.Ctx("C14", "quick", 0, LEVEL)
+    ctx = vlib.Ctx("C14", "quick", 0, LEVEL, fresh=False)
     v = validate(ctx, "replay", [{"ev": "build", "boxes": c["boxes"], "asfloat": False},
                                  {"ev": "q", "q": q, "res": got, "raised": False}])[1]
     return v in ("ok", "skip"), {"verdict": v, "got": got}
